@@ -25,6 +25,7 @@ pub mod c18;
 pub mod c19;
 pub mod c20;
 pub mod common;
+pub mod weak;
 
 #[derive(Clone, Copy)]
 pub struct PropDef {
